@@ -182,6 +182,8 @@ class Fn:
         if self._parents is None:
             p = {}
             for i in range(len(self.nodes)):
+                if self.nodes[i]['k'] == 'methref':
+                    continue        # bound-member callee expressions duplicate the call's object edge
                 for c in self.children(i):
                     p.setdefault(c, i)
             self._parents = p
@@ -407,6 +409,7 @@ class Fn:
                 if n['k'] == 'decl':
                     for dd in n['decls']:
                         d[dd['var']] = {'init': dd.get('init'), 'assigned': False, 'const': dd.get('const', False),
+                                        'rangevar': dd.get('rangevar', False),
                                         'ref': dd.get('ref', False), 'node': i, 'name': dd['name'], 't': dd['t'],
                                         'tc': dd.get('tc'), 'style': dd.get('style')}
                         for j, b in enumerate(dd.get('bindings', [])):
@@ -427,9 +430,38 @@ class Fn:
     def single_def(self, decl):
         """initialiser node of a local that is never re-assigned (None otherwise)"""
         d = self.defs().get(decl)
-        if not d or d['assigned'] or d.get('init') is None:
+        if not d or d['assigned'] or d.get('init') is None or d.get('rangevar'):
             return None
+        init = self.nodes[d['init']]
+        if init['k'] == 'construct' and not init.get('args') and not d.get('const'):
+            return None     # default-constructed object that is filled in later (e.g. QXmppIq iq; iq.parse(el))
         return d['init']
+
+    def all_defs(self, decl):
+        """every value a local may hold: its initialiser plus the right-hand side of every assignment"""
+        out = []
+        d = self.defs().get(decl)
+        if d and d.get('init') is not None:
+            out.append(d['init'])
+        for i, n in enumerate(self.nodes):
+            if n['k'] == 'assign' and n['op'] == '=':
+                l = self.nodes[self.skip(n['l'])]
+                if l['k'] == 'var' and l.get('decl') == decl:
+                    out.append(n['r'])
+        return out
+
+    def resolve_all(self, nid, depth=4):
+        """set of expression nodes a value may come from, following locals through all their definitions"""
+        nid = self.skip(nid)
+        n = self.nodes[nid]
+        if depth > 0 and n['k'] == 'var' and n.get('vk') == 'local' and not n.get('outer'):
+            ds = self.all_defs(n['decl'])
+            if ds:
+                out = set()
+                for d in ds:
+                    out |= self.resolve_all(d, depth - 1)
+                return out
+        return {nid}
 
     def resolve(self, nid, depth=6):
         """follow single-assignment locals to their initialiser"""
